@@ -27,5 +27,11 @@ def check(ctx, rule: str, attr: str, min_consumers: int = 1, min_producers: int 
         in_body = any(isinstance(a, ast.If) and any(c is x for s in a.body for x in ast.walk(s)) for a in A.ancestors(c))
         val = c.args[2]
         ok = isinstance(val, ast.Constant) and val.value is True and in_body and any(attr in g.split(".")[-1] or g.endswith("." + attr) or f".{attr}" in g for g in guards)
+        # the mark goes on the object that is handed on (the key), not back on the source the guard read it from: `if cert.ca: setattr(cert, ..)`
+        # marks nothing the consumers see (and raises when the source exposes `ca` as a read-only property)
+        tgt = norm(c.args[0])
+        on_source = any(g in (f"{tgt}.{attr}", f"{tgt}.{attr} is True", f"bool({tgt}.{attr})") for g in guards)
+        chk.decide(not on_source, rule, f"{fn.qual} setattr target", f"the mark is attached to the object handed on, not to the source `{tgt}` the guard reads",
+                   f"`{norm(c)}` under `if {tgt}.{attr}`: the attribute is written back to the object it was read from; the object returned to the consumers stays unmarked", f"setattr(<returned key>, '{attr}', True)", A.loc(fn.module.relpath, c))
         chk.decide(ok, rule, f"{fn.qual} setattr(.., '{attr}', ..)", f"`{attr}` is attached only when the source says so (guards {guards}), as the constant True - {len(consumers)} consumers test its mere presence with hasattr",
                    f"`{norm(c)}` under guards {guards}: consumers use hasattr(.., '{attr}'), so attaching the attribute with a false value (or unconditionally) flips their decision", f"if <source>.{attr}: setattr(key, '{attr}', True)", A.loc(fn.module.relpath, c))
